@@ -34,11 +34,29 @@ def _z3_try(smt2, timeout_ms, seed=None):
 
 def _solve_one(job):
     """z3 (short budget) -> cvc5 -> z3 (full budget, other seed). unknown/timeouts/crashes are never verdicts."""
-    idx, smt2, timeout_ms, use_cvc5 = job
+    idx, smt2, timeout_ms, use_cvc5 = job[:4]
+    smt2_ack = job[4] if len(job) > 4 else None
+    cvc5_first = job[5] if len(job) > 5 else False
     t0 = time.time()
     verdict, backend, reason = 'unknown', 'z3', ''
+    if smt2_ack is not None:
+        # Ackermann abstraction of the sidecar's spec functions (pyvc/ack.py): only `unsat` is a verdict
+        try:
+            v0, _r0 = _z3_try(smt2_ack, timeout_ms)
+            if v0 == 'proved':
+                return idx, 'proved', 'z3-ack', time.time() - t0, ''
+        except Exception as e:
+            reason = 'z3-ack error: ' + repr(e)
+    if cvc5_first and use_cvc5:
+        # opt-in (spec.cvc5_first = True): word-equation heavy obligations that cvc5 settles in milliseconds
+        v1, why1 = _cvc5(smt2)
+        if v1 != 'unknown':
+            return idx, v1, 'cvc5', time.time() - t0, ''
+        use_cvc5 = False
+        reason = 'cvc5: ' + why1 + ' | '
     try:
-        verdict, reason = _z3_try(smt2, min(timeout_ms, 4000))
+        verdict, r1 = _z3_try(smt2, min(timeout_ms, 4000))
+        reason += r1
     except Exception as e:      # solver crash: never a violation
         reason = 'z3 error: ' + repr(e)
     if verdict == 'unknown' and use_cvc5:
@@ -92,7 +110,18 @@ def solve_all(obligations, timeout_ms=None, use_cvc5=True, nproc=None):
         else:
             smt2 = to_smt2(ob.pc, ob.goal)
         ob.smt2_size = len(smt2)
-        jobs.append((i, smt2, timeout_ms, use_cvc5))
+        names = getattr(getattr(getattr(ob, 'engine', None), 'spec', None), 'abstract_fns', None)
+        smt2_ack = None
+        if names and ob.kind != 'cover':
+            try:
+                from . import ack
+                ab = ack.abstract(ob.pc, ob.goal, names)
+                if ab is not None:
+                    smt2_ack = to_smt2(ab[0], ab[1])
+            except Exception:
+                smt2_ack = None
+        cvc5_first = bool(getattr(getattr(getattr(ob, 'engine', None), 'spec', None), 'cvc5_first', False))
+        jobs.append((i, smt2, timeout_ms, use_cvc5, smt2_ack, cvc5_first and ob.kind != 'cover'))
     nproc = nproc or NPROC
     if len(jobs) <= 2 or nproc == 1:
         results = [_solve_one(j) for j in jobs]
@@ -113,12 +142,19 @@ def solve_all(obligations, timeout_ms=None, use_cvc5=True, nproc=None):
     return obligations
 
 
-def model_for(pc, extra=()):
-    """In-process model of And(pc, extra) or None."""
-    s = z3.Solver()
-    s.set('timeout', 6000)
-    s.add(*pc)
-    s.add(*extra)
-    if s.check() == z3.sat:
-        return s.model()
+def model_for(pc, extra=(), timeout_ms=None, retries=0):
+    """In-process model of And(pc, extra) or None.  retries > 0: further attempts with other random seeds
+    (witness search for word equations is luck-dependent; a timeout is never a verdict)."""
+    for attempt in range(1 + retries):
+        s = z3.Solver()
+        s.set('timeout', timeout_ms or 6000)
+        if attempt:
+            s.set('random_seed', 17 * attempt)
+        s.add(*pc)
+        s.add(*extra)
+        r = s.check()
+        if r == z3.sat:
+            return s.model()
+        if r == z3.unsat:
+            return None
     return None
